@@ -47,7 +47,7 @@ def gen_ops(rng, window):
 
 def generate(rng, tier):
     cases, idx = [], 0
-    n_random = dict(quick=1500, thorough=40000, search=20000)[tier]
+    n_random = dict(quick=1500, thorough=300000, search=20000)[tier]
     for _ in range(n_random):
         r = rng.fork()
         ops, n, origins = gen_ops(r, window=r.chance(1, 2))
